@@ -363,6 +363,135 @@ def plan_c16(case):
     return trace(case, ev)
 
 
+# ------------------------------------------------------------------------------------------- C04
+def build_variant(T, v, how, spec=None):
+    """the same abstract value, built another way (top level; nested members are built the plain way)"""
+    k = T['k']
+    spec = spec if spec is not None else U.build_type(T)
+    if k in ('seq', 'set'):
+        obj = spec.clone()
+        obj.clear()
+        order = list(range(len(T['comps'])))
+        if how in ('reverse', 'byname-reverse'):
+            order.reverse()
+        for i in order:
+            cp, c = T['comps'][i], v['cs'][i]
+            if c['p']:
+                if how == 'skip-default' and cp['mode'] == 'def' and json_eq(c['v'], cp['dflt']):
+                    continue                                      # equal to the DEFAULT: leave it out
+                val = U.build_value(cp['t'], c['v'])
+            elif cp['mode'] == 'def' and how == 'explicit-default':
+                val = U.build_value(cp['t'], cp['dflt'])         # absent DEFAULT: set it explicitly
+            else:
+                continue
+            if how.startswith('byname'):
+                obj.setComponentByName(cp['name'], val)
+            else:
+                obj.setComponentByPosition(i, val)
+        return obj
+    if k in ('seqof', 'setof'):
+        obj = spec.clone()
+        obj.clear()
+        items = list(v['es'])
+        if k == 'setof' and how == 'reverse':
+            items.reverse()
+        if how == 'extend':
+            obj.extend([U.build_value(T['of'], x) for x in items])
+        else:
+            for x in items:
+                obj.append(U.build_value(T['of'], x))
+        if k == 'setof' and how == 'rotate' and len(items) > 1:
+            obj2 = spec.clone()
+            obj2.clear()
+            for x in items[1:] + items[:1]:
+                obj2.append(U.build_value(T['of'], x))
+            return obj2
+        return obj
+    return U.build_value(T, v, spec)
+
+
+def json_eq(a, b):
+    import json
+    return json.dumps(a, sort_keys=True) == json.dumps(b, sort_keys=True)
+
+
+def read_only_uses(T, obj):
+    """uses that must not change what is encoded afterwards (a use may itself raise - e.g. float() of a huge REAL -
+    what matters is the object afterwards)"""
+    from pyasn1.codec.ber import encoder as be
+    from pyasn1.codec.native import encoder as ne
+    constructed = T['k'] in ('seq', 'set', 'seqof', 'setof', 'choice')
+    uses = [lambda: be.encode(obj), lambda: be.encode(obj, defMode=False, maxChunkSize=2), lambda: obj.prettyPrint(),
+            lambda: repr(obj), lambda: str(obj), lambda: obj == obj, lambda: obj != obj, lambda: ne.encode(obj),
+            lambda: bool(obj.isValue), lambda: obj.prettyPrintType()]
+    if not constructed:
+        uses += [lambda: hash(obj), lambda: obj == obj.clone()]
+    if T['k'] in ('seqof', 'setof', 'seq', 'set'):
+        uses += [lambda: [obj.getComponentByPosition(i, default=None, instantiate=False) for i in range(len(obj))],
+                 lambda: len(obj), lambda: list(obj)]
+    if T['k'] in ('seq', 'set'):
+        uses += [lambda: list(obj.keys()), lambda: list(obj.items()), lambda: [cp['name'] in obj for cp in T['comps']]]
+    if T['k'] == 'choice':
+        uses += [lambda: obj.getName(), lambda: obj.getComponent(), lambda: len(obj), lambda: list(obj)]
+    for u in uses:
+        try:
+            u()
+        except Exception:
+            pass
+
+
+def plan_c04(case):
+    T, v = case['T'], case['v']
+    try:
+        spec = U.build_type(T)
+    except Exception as e:
+        return trace(case, [], '%s: %s' % (type(e).__name__, e))
+    builders = [('direct', lambda: U.build_value(T, v, spec))]
+    if T['k'] in ('seq', 'set'):
+        for how in ('reverse', 'byname', 'byname-reverse', 'explicit-default', 'skip-default'):
+            builders.append((how, (lambda h: (lambda: build_variant(T, v, h, spec)))(how)))
+    if T['k'] in ('seqof', 'setof'):
+        for how in ('extend',) + (('reverse', 'rotate') if T['k'] == 'setof' else ()):
+            builders.append((how, (lambda h: (lambda: build_variant(T, v, h, spec)))(how)))
+    builders.append(('clone', lambda: (U.build_value(T, v, spec).clone(cloneValueFlag=True)
+                                       if T['k'] in ('seq', 'set', 'seqof', 'setof', 'choice') else U.build_value(T, v, spec).clone())))
+    builders.append(('subtype-clone', lambda: (U.build_value(T, v, spec).subtype(cloneValueFlag=True)
+                                               if T['k'] in ('seq', 'set', 'seqof', 'setof', 'choice') else U.build_value(T, v, spec).subtype())))
+
+    def after_reads():
+        o = U.build_value(T, v, spec)
+        read_only_uses(T, o)
+        return o
+    builders.append(('after-read-only-uses', after_reads))
+    for m in sorted(case['forms']):
+        w = bytes(case['forms'][m])
+        builders.append(('decoded:' + m, (lambda ww: (lambda: R.DEC['ber'].decode(ww, asn1Spec=spec)[0]))(w)))
+    labels, sts, ders, cers = [], [], [], []
+    for label, fn in builders:
+        st, obj = R.guarded(fn, seconds=10)
+        if st != 'ok':
+            if label.startswith('decoded:'):
+                continue                 # the decoder's acceptance of every form is C09's business
+            labels.append(label); sts.append('build:' + R.exc_name(obj)); ders.append([]); cers.append([])
+            continue
+        d = R.lib_encode('der', obj)
+        c = R.lib_encode('cer', obj)
+        labels.append(label)
+        sts.append('ok' if d['st'] == 'ok' and c['st'] == 'ok' else 'raise')
+        ders.append(d['wire'])
+        cers.append(c['wire'])
+    ev = [{'op': 'hist', 'labels': labels, 'sts': sts, 'ders': ders, 'cers': cers}]
+    # re-encoding what a DER (CER) decode returns reproduces the input
+    for codec, wire in (('der', ders[0]), ('cer', cers[0])):
+        if sts[0] != 'ok':
+            continue
+        r = R.lib_decode(codec, bytes(wire), spec)
+        if r['st'] == 'ok' and not r['rest']:
+            re = R.lib_encode(codec, r['obj'])
+            ev.append({'op': 'same', 'a': re['wire'] if re['st'] == 'ok' else [], 'b': wire, 'codec': codec, 'path': 'decode then re-encode'})
+    return trace(case, ev)
+
+
 # ------------------------------------------------------------------------------------------- C17
 def has_kind(T, kinds):
     return bool(P.kinds_in(T) & set(kinds))
@@ -522,6 +651,9 @@ PROPS = {
                                                    shapes=['scalar', 'any', 'seqof', 'choice', 'deep'])), sizes=False),
     'C15': dict(plan=plan_c15, clauses={'Accepted', 'Crash'},
                 cfg=lambda tier: cfg(tier, modes=['der']), sizes=False),
+    'C04': dict(plan=plan_c04, clauses={'EncodableDependsOnHistory', 'DerDependsOnHistory', 'CerDependsOnHistory', 'Disagree'},
+                cfg=lambda tier: cfg(tier, modes=['der', 'ber_indef', 'ber_def_c1', 'v_long', 'v_indefdef', 'v_perm', 'v_emitdef', 'v_true7f'],
+                                     quick=dict(kinds=['bool', 'int', 'bits', 'octs', 'oid', 'real', 'utf8', 'enum', 'null'])), sizes=False),
     'C17': dict(plan=plan_c17, clauses={'EncRefused', 'Rejected', 'NotAValue', 'ValueDiffers', 'Crash', 'Disagree'},
                 cfg=lambda tier: cfg(tier, modes=['der']), sizes=False),
     'C16': dict(plan=plan_c16, clauses={'Rejected', 'NotAValue', 'ReencodeRefused', 'ReencodeDiffers', 'LeavesDiffer',
